@@ -84,6 +84,11 @@ type c14AuthScen struct {
 	Expiry      bool         `json:"expiry,omitempty"` // v5: Session Expiry Interval 1000
 	User        bool         `json:"user,omitempty"`
 	Pipeline    bool         `json:"pipeline,omitempty"` // SUBSCRIBE + retained PUBLISH sent right behind the CONNECT
+	// Rounds (enhanced only): OnEnhancedAuth answers "continue" and hands the broker an OnAuth callback; the client
+	// answers every AUTH (0x18) with an AUTH (0x18); after Rounds exchanges the callback rejects with Err
+	Rounds int `json:"rounds,omitempty"`
+	// Accept (Rounds > 0): the last round accepts instead of rejecting - the CONNECT must then succeed
+	Accept bool `json:"accept,omitempty"`
 	// CheckClosed: region "the broker closes the network connection after the failing CONNACK"
 	// (a bounded liveness wait, therefore its own small test)
 	CheckClosed bool `json:"check_closed,omitempty"`
@@ -207,6 +212,10 @@ func genC14Auth(v3map bool) func(t *rapid.T) c14DecScen {
 			if s.V == 5 {
 				a.Enhanced = rapid.IntRange(0, 2).Draw(t, "enhanced") == 0
 				a.EmptyMethod = a.Enhanced && rapid.IntRange(0, 2).Draw(t, "empty_method") == 0
+				if a.Enhanced && !a.EmptyMethod {
+					a.Rounds = rapid.SampledFrom([]int{0, 0, 1, 2}).Draw(t, "rounds")
+					a.Accept = a.Rounds > 0 && rapid.IntRange(0, 2).Draw(t, "accept") == 0
+				}
 				a.Err = genC14Err(t, "err", c14ConnackCodes)
 				a.Expiry = c14Bool(t, "expiry")
 			} else {
@@ -220,6 +229,9 @@ func genC14Auth(v3map bool) func(t *rapid.T) c14DecScen {
 		a.Clean = c14Bool(t, "clean")
 		a.User = c14Bool(t, "user")
 		a.Pipeline = c14Bool(t, "pipeline")
+		if a.Rounds > 0 {
+			a.Pipeline = false // packets behind the CONNECT would be taken for the client's answer to the challenge
+		}
 		return s
 	}
 }
@@ -227,6 +239,21 @@ func genC14Auth(v3map bool) func(t *rapid.T) c14DecScen {
 func runC14Auth(s c14DecScen, c *ev.Case) *ev.Violation {
 	a := s.Auth
 	var calls int32
+	var authCalls int32
+	var badAuth atomic.Value // what the OnAuth callback saw when it was not what the client had sent
+	onAuth := func(ctx context.Context, cl server.Client, req *server.AuthRequest) (*server.AuthResponse, error) {
+		n := int(atomic.AddInt32(&authCalls, 1))
+		if req.Auth == nil || req.Auth.Properties == nil || string(req.Auth.Properties.AuthData) != fmt.Sprintf("response-%d", n) {
+			badAuth.Store(fmt.Sprintf("round %d: %+v", n, req.Auth))
+		}
+		if n >= a.Rounds {
+			if a.Accept {
+				return &server.AuthResponse{}, nil
+			}
+			return nil, a.Err.err()
+		}
+		return &server.AuthResponse{Continue: true, AuthData: []byte(fmt.Sprintf("challenge-%d", n+1))}, nil
+	}
 	hooks := &server.Hooks{
 		OnBasicAuth: func(ctx context.Context, cl server.Client, req *server.ConnectRequest) error {
 			if string(req.Connect.ClientID) == "rej" {
@@ -238,7 +265,10 @@ func runC14Auth(s c14DecScen, c *ev.Case) *ev.Violation {
 		OnEnhancedAuth: func(ctx context.Context, cl server.Client, req *server.ConnectRequest) (*server.EnhancedAuthResponse, error) {
 			if string(req.Connect.ClientID) == "rej" {
 				atomic.AddInt32(&calls, 1)
-				return nil, a.Err.err()
+				if a.Rounds == 0 {
+					return nil, a.Err.err()
+				}
+				return &server.EnhancedAuthResponse{Continue: true, AuthData: []byte("challenge-1"), OnAuth: onAuth}, nil
 			}
 			return &server.EnhancedAuthResponse{}, nil
 		},
@@ -300,9 +330,52 @@ func runC14Auth(s c14DecScen, c *ev.Case) *ev.Violation {
 	c.Label(fmt.Sprintf("auth_v%d_enhanced_%v", s.V, a.Enhanced))
 	feat := []any{"version", s.V, "enhanced", a.Enhanced, "code", a.Err.want(), "plain", a.Err.Plain}
 
+	for k := 1; k <= a.Rounds; k++ {
+		// the broker relays the hook's challenge as AUTH (0x18, same method); the client answers
+		p, err := cl.WaitType(mw.AUTH, fixture.DefaultWait)
+		if err != nil {
+			return ev.Violf("C14.auth-continue", "OnEnhancedAuth/OnAuth answered 'continue' (round %d), no AUTH packet arrived: %v", k, err).With(feat...)
+		}
+		gotData := ""
+		if p.Props != nil {
+			gotData = string(p.Props.AuthData)
+		}
+		if p.ReasonCode != 0x18 || gotData != fmt.Sprintf("challenge-%d", k) {
+			return ev.Violf("C14.auth-continue", "round %d: hook said continue with data %q, the broker sent AUTH code %#x data %q", k, fmt.Sprintf("challenge-%d", k), p.ReasonCode, gotData).With(feat...)
+		}
+		if err := cl.Send(&mw.Packet{Type: mw.AUTH, ReasonCode: 0x18, Props: &mw.Props{AuthMethod: strp("m"), AuthData: []byte(fmt.Sprintf("response-%d", k)), HasAuthData: true}}); err != nil {
+			return harnessErr("send AUTH: %v", err)
+		}
+		c.Label("auth_continuation_round")
+	}
 	ack, err := cl.WaitType(mw.CONNACK, fixture.DefaultWait)
 	if err != nil {
 		return ev.Violf("C14.auth-reject-connack", "hook rejected the CONNECT, no CONNACK arrived: %v", err).With(feat...).With("no_connack", true)
+	}
+	if a.Accept {
+		// the hook's final verdict is 'accept': the CONNECT succeeds and the connection works
+		c.Label("auth_continue_then_accept")
+		if ack.ReasonCode != 0 {
+			return ev.Violf("C14.auth-accept", "OnAuth accepted after %d round(s), CONNACK carries %#x", a.Rounds, ack.ReasonCode).With(feat...)
+		}
+		if n := int(atomic.LoadInt32(&authCalls)); n != a.Rounds {
+			return ev.Violf("C14.auth-fires-once", "the OnAuth callback ran %d times for %d AUTH packets of the client", n, a.Rounds).With(feat...)
+		}
+		if err := cl.Ping(fixture.DefaultWait); err != nil {
+			return ev.Violf("C14.auth-accept", "connection accepted after enhanced authentication does not answer PINGREQ: %v", err).With(feat...)
+		}
+		if b.Srv.ClientService().GetClient("rej") == nil {
+			return ev.Violf("C14.auth-accept", "client accepted after enhanced authentication is not registered").With(feat...)
+		}
+		return nil
+	}
+	if a.Rounds > 0 {
+		if n := int(atomic.LoadInt32(&authCalls)); n != a.Rounds {
+			return ev.Violf("C14.auth-fires-once", "the OnAuth callback ran %d times for %d AUTH packets of the client", n, a.Rounds).With(feat...)
+		}
+		if v := badAuth.Load(); v != nil {
+			return ev.Violf("C14.auth-continue", "the OnAuth callback did not see the client's AUTH packet: %v", v).With(feat...)
+		}
 	}
 	if ack.ReasonCode == 0 {
 		return ev.Violf("C14.auth-reject-connack", "hook rejected the CONNECT with %#x, CONNACK says success", a.Err.want()).With(feat...)
